@@ -5,7 +5,7 @@ import TT.Spec.Formats
 import TT.Lemmas.Write
 namespace TT.Props.C02
 open TT TT.Tree TT.Spec
-open TT.Lemmas.Write
+open TT.Lemmas.Write TT.Lemmas.GramOut
 
 /-! ### XML attribute escaping -/
 
@@ -99,5 +99,69 @@ theorem writeBrackets_skips_iff (o : OutOpts) (t : Tree) (h : o.skipDisco = true
   · simp only [hg, if_false, iff_false]
     cases bracketsSub o o.emptyRoot t <;> simp [Except.map]
 
+
+/-! ### export: frame and line counts -/
+
+
+theorem writeExport_frame (o : OutOpts) (sid : Nat) (t : Tree) (ls : List Str) (h : writeExport o sid t = .ok ls) :
+    ls.head? = some ("#BOS ".toList ++ natToStr sid) ∧ ls.getLast? = some ("#EOS ".toList ++ natToStr sid) ∧
+    ls.length = 2 + (t.preorderP.filter (· ≠ [])).length := by
+  unfold writeExport at h
+  obtain ⟨terms, ht, h⟩ := bind_eq_ok _ _ _ h
+  obtain ⟨nts, hn, h⟩ := bind_eq_ok _ _ _ h
+  have h1 := mapM_ok_length _ _ _ ht
+  have h2 := mapM_ok_length _ _ _ hn
+  simp only [pure, Except.pure, Except.ok.injEq] at h
+  subst h
+  refine ⟨by simp, List.getLast?_concat, ?_⟩
+  simp only [List.length_append, List.length_map, sortBy_length, List.length_cons, List.length_nil, h1, h2]
+  have h3 := filter_length_add (fun (x : Path × Tree) => x.2.kids.isEmpty)
+    ((t.preorderP.filter (· ≠ [])).filterMap fun p => (t.get? p).map fun s => (p, s))
+  rw [filterMap_length_of_isSome] at h3
+  · omega
+  · intro p hp
+    have := get?_isSome_of_mem_preorderP t p (List.mem_filter.1 hp).1
+    simpa using this
+
+
+
+theorem decExpLine_exportLine (o : OutOpts) (t : Tree) (word : Str) (pn : Nat) (line : Str)
+    (h : exportLine o t word pn = .ok line)
+    (hw : word ≠ [] ∧ ∀ c ∈ word, pyIsSpace c = false)
+    (hf : ∀ x ∈ [printedLabel o t, t.fields.morph.getD DEFAULT_MORPH, t.fields.edge.getD DEFAULT_EDGE, t.fields.lemma.getD DEFAULT_LEMMA],
+            x ≠ [] ∧ ∀ c ∈ x, pyIsSpace c = false) :
+    decExpLine o.exportFour line = some { word := word, lemma := (if o.exportFour then t.fields.lemma.getD DEFAULT_LEMMA else DEFAULT_LEMMA), label := printedLabel o t, morph := t.fields.morph.getD DEFAULT_MORPH, edge := t.fields.edge.getD DEFAULT_EDGE, parent := pn } := by
+  unfold exportLine at h
+  obtain ⟨label, hl, h⟩ := bind_eq_ok _ _ _ h
+  rw [setFields_edge_eq] at hl
+  have hpl := printedLabel_of_ok o t label hl
+  have hlab := hf (printedLabel o t) (by simp)
+  have hmor := hf (t.fields.morph.getD DEFAULT_MORPH) (by simp)
+  have hedg := hf (t.fields.edge.getD DEFAULT_EDGE) (by simp)
+  have hlem := hf (t.fields.lemma.getD DEFAULT_LEMMA) (by simp)
+  rw [hpl] at hlab
+  have hnum : splitWs (natToStr pn) = [natToStr pn] := splitWs_word _ (OKw_natToStr pn)
+  cases h4 : o.exportFour with
+  | false =>
+    simp only [h4, Bool.not_false, if_true, pure, Except.pure, Except.ok.injEq] at h
+    subst h
+    unfold decExpLine
+    simp only [List.append_assoc, List.cons_append, List.nil_append]
+    rw [splitWs_word_tabs _ _ _ hw, splitWs_word_tab _ _ hlab, splitWs_word_tabs _ _ _ hmor, splitWs_word_tab _ _ hedg, hnum]
+    simp [strToNat_natToStr, hpl]
+  | true =>
+    simp only [h4, Bool.not_true, Bool.false_eq_true, if_false, pure, Except.pure, Except.ok.injEq] at h
+    subst h
+    unfold decExpLine
+    simp only [List.append_assoc, List.cons_append, List.nil_append]
+    rw [splitWs_word_tabs _ _ _ hw, splitWs_word_tabs _ _ _ hlem, splitWs_word_tab _ _ hlab, splitWs_word_tabs _ _ _ hmor, splitWs_word_tab _ _ hedg, hnum]
+    simp [strToNat_natToStr, hpl]
+
+theorem exportLine_total (o : OutOpts) (t : Tree) (word : Str) (pn : Nat)
+    (h : o.markHeads = false ∧ o.splitMarking = false ∧ o.splitNumbering = false) : ∃ l, exportLine o t word pn = .ok l := by
+  obtain ⟨h1, h2, h3⟩ := h
+  unfold exportLine getLabel
+  simp only [h1, h2, h3, Bool.false_eq_true, if_false, pure, Except.pure, bind, Except.bind]
+  split <;> exact ⟨_, rfl⟩
 
 end TT.Props.C02
